@@ -229,7 +229,7 @@ def checker_name(case, key):
 
 
 def bits(d):
-    return "".join(("1" if d[k] is True else "0" if d[k] is False else "E") for k in KEYS)
+    return "".join(("1" if d.get(k, "-") is True else "0" if d.get(k, "-") is False else "-" if d.get(k, "-") == "-" else "E") for k in KEYS)
 
 
 # ----------------------------------------------------------------------------------------------
